@@ -310,7 +310,9 @@ def run_bounded(chk):
                     fails.append((f"{klass}:{name}/s={s:g}/{pname}", {"vertices": Pn.tolist(), "faces": None if faces is None else fn,
                                                                      "scale": s, "differences": [str(b)[:300] for b in bad[:4]]}))
     # polygons
-    for pname, pts in list(corpus.polygons_2d().items())[:6 if chk.bounded_tier == "quick" else 11]:
+    import math
+    many = {f"regular{n}": [(math.cos(2 * math.pi * k / n), math.sin(2 * math.pi * k / n)) for k in range(n)] for n in (48, 120)}
+    for pname, pts in list(corpus.polygons_2d().items())[:6 if chk.bounded_tier == "quick" else 11] + list(many.items()):
         p3 = np.array([[float(x), float(y), 0.0] for x, y in pts])
         size = float(np.ptp(p3, axis=0).max())
         base = cox.shapes.Polygon(p3)
